@@ -1,6 +1,6 @@
 ---------------------------- MODULE MC_MinerFees ----------------------------
 EXTENDS MinerFees
-A_NewBlock == \E g \in Miner, f \in 0..MaxFee : NewBlock(g, f)
+A_NewBlock == \E g \in Miner, txs \in Blocks : NewBlock(g, txs)
 A_PayFees == \E c \in Miner, r \in 0..MaxBlocks : PayFees(c, r)
 A_ValidateBlock == ValidateBlock
 MCNext == A_NewBlock \/ A_PayFees \/ A_ValidateBlock
